@@ -20,8 +20,10 @@ import (
 	"sync/atomic"
 	"time"
 
+	"go.amzn.com/lambda/core/directinvoke"
 	"go.amzn.com/lambda/fatalerror"
 	"go.amzn.com/lambda/interop"
+	"go.amzn.com/lambda/metering"
 	"go.amzn.com/lambda/rapidcore"
 	"go.amzn.com/lambda/rapidcore/env"
 )
@@ -63,6 +65,7 @@ type Stack struct {
 	inited bool
 
 	mu        sync.Mutex
+	posted    [][]byte
 	pending   map[int]*Call // outstanding HTTP calls of actors
 	nextCall  int
 	callers   int32 // outstanding Invoke callers
@@ -298,6 +301,114 @@ func (s *Stack) invokeCaller(c int, payload []byte, trace string) {
 	w.mu.Unlock()
 	s.L.Add("caller%d done err=%s body=%s ms=%d", c, errName(err), s.bodyClass(body), time.Since(t0).Milliseconds())
 	atomic.AddInt32(&s.callers, -1)
+}
+
+// DirectInvoke runs one invocation through the interop server's direct-invoke reply path — what the
+// standalone direct-invoke handler does (Reserve, FastInvoke(direct), AwaitRelease, then Release or
+// Reset), with the timeout and failure handling of Server.Invoke. The RIE front end never uses this
+// path; it exists in rapidcore.Server and is part of C02/C17.
+func (s *Stack) DirectInvoke(c int, payload []byte, trace string, maxResp int64) {
+	s.Init()
+	atomic.AddInt32(&s.callers, 1)
+	s.L.Add("caller%d start %s", c, hash(payload))
+	go s.directCaller(c, payload, trace, maxResp)
+}
+
+//go:noinline
+func (s *Stack) directCaller(c int, payload []byte, trace string, maxResp int64) {
+	w := &proxyWriter{}
+	t0 := time.Now()
+	done := func(err string) {
+		w.mu.Lock()
+		body := append([]byte{}, w.body.Bytes()...)
+		eor := w.Header().Get(directinvoke.EndOfResponseTrailer)
+		w.mu.Unlock()
+		if eor == "" {
+			eor = "-"
+		}
+		s.L.Add("caller%d done err=%s body=%s eor=%s ms=%d", c, err, s.directBodyClass(body), eor, time.Since(t0).Milliseconds())
+		atomic.AddInt32(&s.callers, -1)
+	}
+	timeout := time.After(time.Duration(s.Cfg.TimeoutMs) * time.Millisecond)
+	resv, err := s.Srv.Reserve("", trace, "")
+	if resv == nil {
+		done(errName(err))
+		return
+	}
+	directinvoke.MaxDirectResponseSize = maxResp
+	directinvoke.InvokeResponseMode = interop.InvokeResponseModeBuffered
+	inv := &interop.Invoke{
+		ID:                 resv.Token.InvokeID,
+		ReservationToken:   resv.Token.ReservationToken,
+		InvokedFunctionArn: "arn:aws:lambda:us-east-1:012345678912:function:test_function",
+		TraceID:            trace,
+		Payload:            bytes.NewReader(payload),
+		ClientContext:      "ctx" + fmt.Sprint(c),
+		DeadlineNs:         fmt.Sprintf("%d", metering.Monotime()+resv.Token.FunctionTimeout.Nanoseconds()),
+	}
+	rel := make(chan error, 1)
+	go func() {
+		_ = s.Srv.AwaitInitialized()
+		_ = s.Srv.FastInvoke(w, inv, true)
+	}()
+	go func() {
+		_, err := s.Srv.AwaitRelease()
+		rel <- err
+	}()
+	select {
+	case <-timeout:
+		_, _ = s.Srv.Reset("Timeout", 2000)
+		<-rel
+		done("InvokeTimeout")
+	case err := <-rel:
+		switch err {
+		case nil:
+			_ = s.Srv.Release()
+			done("ok")
+		case rapidcore.ErrInitDoneFailed, rapidcore.ErrInvokeDoneFailed:
+			_, _ = s.Srv.Reset("ReleaseFail", 2000)
+			done(errName(err))
+		default:
+			done(errName(err))
+		}
+	}
+}
+
+// NotePosted remembers the bytes the runtime posted (or began to post) so that a direct-invoke caller's
+// stream can be classified as exactly those bytes, a prefix of them, or something else.
+func (s *Stack) NotePosted(b []byte) {
+	s.mu.Lock()
+	s.posted = append(s.posted, append([]byte{}, b...))
+	s.mu.Unlock()
+}
+
+// directBodyClass: `bytes:<hash>` = exactly one posted payload; `prefix:<n>/<hash>` = the first n bytes of
+// one; `errjson:<type>` = a platform or runtime error document alone; `mixed:<n>` = anything else (for
+// instance a prefix of a payload followed by an error document).
+func (s *Stack) directBodyClass(b []byte) string {
+	if len(b) == 0 {
+		return "empty"
+	}
+	s.mu.Lock()
+	posted := s.posted
+	s.mu.Unlock()
+	for _, p := range posted {
+		if bytes.Equal(b, p) {
+			return "bytes:" + hash(b)
+		}
+	}
+	var m map[string]any
+	if b[0] == '{' && json.Unmarshal(b, &m) == nil {
+		if t, ok := m["errorType"].(string); ok {
+			return "errjson:" + t
+		}
+	}
+	for _, p := range posted {
+		if len(b) < len(p) && bytes.Equal(b, p[:len(b)]) {
+			return fmt.Sprintf("prefix:%d/%s", len(b), hash(p))
+		}
+	}
+	return fmt.Sprintf("mixed:%d", len(b))
 }
 
 // bodyClass canonicalises a body a caller received.
